@@ -91,7 +91,7 @@ func nonOK(p *Prog) map[string]string {
 			if scope == "" && n < r.Floor || scope != "" && n == 0 {
 				out["ERROR:"+rn+":floor"] = fmt.Sprintf("error %d obligations < floor %d", n, r.Floor)
 			}
-			tooMany := n > 0 && unm*10 > n
+			tooMany := n > 0 && unm >= 2 && unm*10 > n
 			for _, o := range obl {
 				if o.Status == Unmodelled {
 					if tooMany {
